@@ -901,6 +901,20 @@ func (cfg *Config) quotedElemFields(pe *syntax.ParamExp) ([]string, error) {
 		return nil, err
 	}
 	if ok {
+		if isTest, usesWord := cfg.listTestUsesWord(pe, elems, star); isTest {
+			if usesWord {
+				// "${foo[@]:-word}" and the like: the general path expands
+				// the argument word, assigns, or fails.
+				return nil, nil
+			}
+			if star {
+				return []string{cfg.ifsJoin(elems)}, nil
+			}
+			if elems == nil {
+				elems = []string{}
+			}
+			return elems, nil
+		}
 		// Operators like "${foo[@]#prefix}" apply to each element.
 		elems, err := cfg.perElemOps(pe, elems)
 		if err != nil {
@@ -911,11 +925,45 @@ func (cfg *Config) quotedElemFields(pe *syntax.ParamExp) ([]string, error) {
 		}
 		return elems, nil
 	}
+	if isTest, usesWord := cfg.listTestUsesWord(pe, nil, false); isTest && usesWord {
+		return nil, nil // "${unset[@]:-word}" expands the word
+	}
 	if nodeLit(pe.Index) == "@" && !cfg.Env.Get(name).IsSet() {
 		// An unset "${name[@]}" produces zero fields, like an empty array.
 		return []string{}, nil
 	}
 	return nil, nil
+}
+
+// listTestUsesWord reports whether pe has one of the operators which test
+// whether a parameter is unset or null, like ${foo[@]:-word} or ${@:+word},
+// and whether that test on a list of elements selects the argument word
+// rather than the elements. A list is unset if it has no elements,
+// and null if its elements join into an empty string.
+func (cfg *Config) listTestUsesWord(pe *syntax.ParamExp, elems []string, star bool) (isTest, usesWord bool) {
+	if pe.Exp == nil {
+		return false, false
+	}
+	unset := len(elems) == 0
+	null := unset
+	if !null {
+		if star {
+			null = cfg.ifsJoin(elems) == ""
+		} else {
+			null = strings.Join(elems, " ") == ""
+		}
+	}
+	switch pe.Exp.Op {
+	case syntax.DefaultUnset, syntax.ErrorUnset, syntax.AssignUnset:
+		return true, unset
+	case syntax.DefaultUnsetOrNull, syntax.ErrorUnsetOrNull, syntax.AssignUnsetOrNull:
+		return true, null
+	case syntax.AlternateUnset:
+		return true, !unset
+	case syntax.AlternateUnsetOrNull:
+		return true, !null
+	}
+	return false, false
 }
 
 // sliceElems applies ${var:offset:length} slicing to a list of elements.
